@@ -33,12 +33,28 @@ def tableHash (t : List (Bytes × Bytes)) (b : Bytes) : Bytes :=
   | some e => e.2
   | none => []
 
-/-- `subjhex~keyspec,…` -/
-def parseChain (s : String) : Option (List (Bytes × PubKey)) :=
+/-- `subjhex~issuerhex~keyspec~leafflag,…` -/
+def parseChain (s : String) : Option (List LCert) :=
   if s = "-" then some [] else
   (s.splitOn ",").mapM fun item =>
     match item.splitOn "~" with
-    | [a, k] => do pure ((← fromHex a), (← parseKey k))
+    | [a, i, k, l] => do pure ⟨(← fromHex a), (← fromHex i), (← parseKey k), l = "1"⟩
+    | _ => none
+
+/-- `subjhex~issuerhex~keyspec~sha1(skid stream),…`: certificates carried by a signature, with the digests the model needs -/
+def parseCarried (s : String) : Option (List (LCert × Bytes)) :=
+  if s = "-" then some [] else
+  (s.splitOn ",").mapM fun item =>
+    match item.splitOn "~" with
+    | [a, i, k, d] => do pure (⟨(← fromHex a), (← fromHex i), (← parseKey k), false⟩, (← fromHex d))
+    | _ => none
+
+/-- `-` | `namehex:ikhhex,…` -/
+def parsePubs (s : String) : Option (List (String × String)) :=
+  if s = "-" then some [] else
+  (s.splitOn ",").mapM fun item =>
+    match item.splitOn ":" with
+    | [n, h] => do pure ((← (fromHex n).map bytesToString), (← (fromHex h).map bytesToString))
     | _ => none
 
 /-- one certificate of a `sign` op: `leafkey;subj;issuer;chain;d1;d2` -/
@@ -131,7 +147,7 @@ def handle : List String → String
         | [s1, s2] => [(s1, c.2.1), (s2, c.2.2)]
         | _ => []
       let hash := tableHash table
-      let m0 : Manifest Unit := ⟨a, List.replicate np ("?", "?"), ()⟩
+      let m0 : Manifest Unit := ⟨a, List.replicate np ("?", "?"), none, ()⟩
       let streams := "|".intercalate (cs.map fun c => "+".intercalate ((streamsOf c.1).map toHex))
       match signAll hash m0 (cs.map (·.1)) with
       | .ok m =>
@@ -139,7 +155,7 @@ def handle : List String → String
         | some last, some attrs, [(name, ikh)] =>
           let ldap := showRes (formatPkixName .ldap last.1.leaf.subject) toHex
           let v := if !xmlKeyValueOk last.1.leaf.key then "invalid-primary" else
-            match verifyIdent hash m last.1.leaf.key with
+            match verifyIdent hash m last.1.leaf.key (chainOf last.1) with
             | .ok _ => "pass"
             | .err e => e
             | .panic p => s!"panic:{p}"
@@ -150,15 +166,18 @@ def handle : List String → String
       | .panic p => s!"panic {p}"
       | .diverge => "diverge"
     | _, _, _ => "bad-op"
-  | "vgap" :: kind :: key :: asi :: dig :: _ =>
-    -- a manifest whose two XML signatures verify under `key`; `asi` = its assemblyIdentity attributes
-    match parseKey key, parseAsi asi, fromHex dig with
-    | some k, some a, some d =>
-      let hash : Bytes → Bytes := fun _ => d
-      let m : Manifest Unit := ⟨a, [], ()⟩
-      let snk := match publicKeyToSnk k with | .ok s => toHex s | _ => "-"
-      s!"{showRes (verifyIdent hash m k) fun _ => "ok pass"} #kind={kind} streams={snk}"
-    | _, _, _ => "bad-op"
+  | "vgap" :: kind :: key :: carried :: asi :: pubs :: lic :: dig :: _ =>
+    -- a manifest whose two XML signatures verify under `key`; the licence signature carries `carried`
+    match parseKey key, parseCarried carried, parseAsi asi, parsePubs pubs, fromHex dig with
+    | some k, some cs, some a, some ps, some d =>
+      let snkS := match publicKeyToSnk k with | .ok s => s | _ => []
+      let table := (snkS, d) :: cs.filterMap fun c => match skidStream c.1.key with | .ok s => some (s, c.2) | _ => none
+      let hash := tableHash table
+      let l : Option String := if lic = "none" then none else (fromHex lic).map bytesToString
+      let m : Manifest Unit := ⟨a, ps, l, ()⟩
+      let streams := "|".intercalate (table.map fun e => toHex e.1)
+      s!"{showRes (verifyIdent hash m k (cs.map (·.1))) fun _ => "ok pass"} #kind={kind} streams={streams}"
+    | _, _, _, _, _ => "bad-op"
   | _ => "bad-op"
 
 end Relic.Driver.Ident
